@@ -6,7 +6,7 @@ Theorems about `Model.GenHlsl` (the exporter) against `Spec.Sem` (typed IR seman
 emitted syntax), for every interpretation `P : Prim` of float arithmetic, conversions and integer division.
 -/
 namespace RsslVerif.Thm.C01
-open RsslVerif.Gen.HlslGenTables RsslVerif.Model RsslVerif.Model.GenHlsl RsslVerif.Spec.Sem RsslVerif.Lemmas.GenSem
+open RsslVerif.Gen.HlslGenTables RsslVerif.Gen.HlslIntrinsicTables RsslVerif.Model RsslVerif.Model.GenHlsl RsslVerif.Spec.Sem RsslVerif.Lemmas.GenSem
 open RsslVerif.Model.Ir (Ty Var Const Dir)
 
 /-- `generate_intrinsic_op`'s table (re-extracted from the source on every run) maps every typed operator to the syntax
@@ -25,11 +25,20 @@ of exactly one typed operator (the table is injective: no two operators are merg
 theorem op_table_injective : ∀ a b : IntrinsicOp, opForm a = opForm b → opForm a ≠ .unexpected → a = b := by
   intro a b; cases a <;> cases b <;> decide
 
+/-- `generate_intrinsic_function`'s table (243 intrinsics, re-extracted on every run) invokes every modelled pure
+math / bit intrinsic under the name HLSL gives exactly that built-in, and `Form::Invoke` passes the arguments in order -/
+theorem intrinsic_table_is_identity :
+    (∀ p ∈ Ast.builtins, intrinsicForm p.2 = .invoke p.1 ∧ Ast.hlslBuiltin p.1 = some p.2) ∧
+    invokeFormAsModelled = true :=
+  ⟨builtins_table_ok, by decide⟩
+
 /-- the expansion of the two forms, the `Sequence` fold, the `Cast` arm and the ternary arm of the source have the
-shape `Model.GenHlsl` mirrors (textual facts re-extracted on every run). -/
+shape `Model.GenHlsl` mirrors, and so has the label handling of `generate_scope_block` / `generate_statement`
+(textual facts re-extracted on every run). -/
 theorem exporter_shape_as_modelled :
     unaryFormAsModelled = true ∧ binaryFormAsModelled = true ∧ sequenceRightNested = true ∧
-    sequenceAssertsTwo = true ∧ castDropsOnlyLiteralTargets = true ∧ ternaryInOrder = true := by decide
+    sequenceAssertsTwo = true ∧ castDropsOnlyLiteralTargets = true ∧ ternaryInOrder = true ∧
+    scopeBlockAsModelled = true ∧ labelsEmittedEmpty = true := by decide
 
 /-- **literals**: whatever `generate_literal` emits for a constant has the constant's value, and its static type is the
 constant's type — except that a typed `Int32` constant becomes an *unsuffixed* literal (static type "literal int"),
@@ -39,18 +48,9 @@ theorem literal_value_preserved (W : World) (env : Ast.Env) (c : Const) (a : Hls
     (hg : genLiteral c = .ok a) : Sim W env (.lit c) a c.ty :=
   sim_lit W env c a hg
 
-/-- …and the one constant for which the exporter does not produce a tree at all: `i32::MIN` (debug build: `-v`
-overflows in `generate_literal`).  Replayed on the real compiler by corpus/C01.txt (`return -2147483648;`). -/
-theorem literal_int32_min_panics :
-    genLiteral (.int32 (BitVec.intMin 32)) = .error (.panic "hlsl/src/ast_generate.rs: attempt to negate with overflow") := by
-  have h : (BitVec.intMin 32).toInt < 0 := by decide
-  simp [genLiteral, Const.kind, Const.intValue, findArm_int32_neg _ h, negMagnitude]
-
-/-- every other `Int32`/`UInt32`/`Bool`/`Float32`/`FloatLiteral` constant, and every `IntLiteral` of magnitude ≤ u64::MAX,
-is exported without a panic. -/
-theorem literal_total_except_min (c : Const)
-    (h1 : c ≠ .int32 (BitVec.intMin 32))
-    (h2 : ∀ v, c = .intLit v → -u64Max ≤ v ∧ v ≤ u64Max) : ∃ a, genLiteral c = .ok a := by
+/-- the literal function is **total** on the modelled constants (since fix b1ff3d2 also on `Int32(i32::MIN)`); only an
+`IntLiteral` of magnitude above `u64::MAX` has no tree (`panic!("cannot represent …")`, unreachable from source text) -/
+theorem literal_total (c : Const) (h2 : ∀ v, c = .intLit v → -u64Max ≤ v ∧ v ≤ u64Max) : ∃ a, genLiteral c = .ok a := by
   cases c with
   | bool b => simp [genLiteral, Const.kind, Const.intValue, findArm_bool, mkLit, Except.map]
   | float32 x => simp [genLiteral, Const.kind, Const.intValue, findArm_f32, mkLit, Except.map]
@@ -63,10 +63,27 @@ theorem literal_total_except_min (c : Const)
     · simp [genLiteral, Const.kind, Const.intValue, findArm_intLit_nonneg v (by omega) this.2, mkLit, Except.map]
   | int32 v =>
     by_cases hn : v.toInt < 0
-    · have hm : v ≠ BitVec.intMin 32 := fun h => h1 (by rw [h])
-      simp [genLiteral, Const.kind, Const.intValue, findArm_int32_neg _ hn, negMagnitude, hm]
+    · simp [genLiteral, Const.kind, Const.intValue, findArm_int32_neg _ hn, negMagnitude]
     · simp [genLiteral, Const.kind, Const.intValue, findArm_int32_nonneg _ hn, mkLit, Except.map]
 
+/-- `i32::MIN` is emitted as unary minus applied to the *unsuffixed* literal `2147483648`.  Under the C-like semantics of
+`Spec.Sem` an unsuffixed literal is a literal int (exact integer, as in HLSL / in RSSL's own `IntLiteral`), so the
+operand has value 2147483648 and type literal int, the negation is exact, and the value -2147483648 converts to `int`
+without loss wherever the exporter places it: meaning **is** preserved for this constant too — it is an instance of
+`literal_value_preserved` (no special case is left). -/
+theorem literal_int32_min (W : World) (env : Ast.Env) :
+    genLiteral (.int32 (BitVec.intMin 32)) = .ok (.un .Minus (.lit (.intUntyped 2147483648))) ∧
+    Ast.typeOf W.sig env (.un .Minus (.lit (.intUntyped 2147483648))) = some .lit ∧
+    (∀ σ, Ast.eval W env (.un .Minus (.lit (.intUntyped 2147483648))) σ = some (.lit (-2147483648), σ)) ∧
+    castVal W.P .int (.lit (-2147483648)) = some (.i (BitVec.intMin 32)) := by
+  have h : (BitVec.intMin 32).toInt < 0 := by decide
+  have hg : genLiteral (.int32 (BitVec.intMin 32)) = .ok (.un .Minus (.lit (.intUntyped 2147483648))) := by
+    simp [genLiteral, Const.kind, Const.intValue, findArm_int32_neg _ h, negMagnitude]
+    decide
+  have hs := (sim_lit W env _ _ hg).lit
+  refine ⟨hg, hs.1, fun σ => ?_, ?_⟩
+  · rw [hs.2 σ]; rfl
+  · simp [castVal]; decide
 
 /-! ## meaning preservation: expressions, statements, functions, programs
 
@@ -97,23 +114,41 @@ theorem gen_sem_expr_plain {W : World} {env : Ast.Env} {cx : Ctx} (hag : Agree c
   (sim_expr hag e a t hg ht hl).plain hn
 
 /-- **statements** (expression statement, declaration with initialiser, block, if, if/else, for with every kind of init,
-while, do-while, break, continue, return): same control-flow outcome and same store, from every store, *for every fuel*
-(iterations allowed per loop). -/
-theorem gen_sem_stmt {W : World} {env : Ast.Env} {cx : Ctx} (hag : Agree cx env) (rt : Ty)
-    (s : Ir.Stmt) (s' : HlslAst.Stmt) (hg : genStmt cx s = .ok s') (hwt : Ir.wtStmt W.sig cx.vty rt s = true) :
-    ∀ fuel σ, Ast.exec W env rt fuel s' σ = Ir.exec W fuel s σ :=
-  sim_stmt hag rt s s' hg hwt
+while, do-while, break, continue, return, `switch`, `case` and `default` labels): same control-flow outcome and same
+store, from every store, *for every fuel* (iterations allowed per loop) and *for every way of entering the statement*
+(`m`: executing, or looking for the `case`/`default` label of the enclosing `switch` — C's jump into the block). -/
+theorem gen_sem_stmt {W : World} {env : Ast.Env} {cx : Ctx} (hag : Agree cx env) (rt : Ty) (lt : Option Ty)
+    (s : Ir.Stmt) (s' : HlslAst.Stmt) (hg : genStmt cx s = .ok s') (hwt : Ir.wtStmt W.sig cx.vty rt lt s = true)
+    (m : Mode) (hm : ModeOK lt m) :
+    ∀ fuel σ, Ast.exec W env rt fuel m s' σ = Ir.exec W fuel m s σ :=
+  sim_stmt hag rt s s' lt hg hwt m hm
 
-theorem gen_sem_stmts {W : World} {env : Ast.Env} {cx : Ctx} (hag : Agree cx env) (rt : Ty)
-    (b : Ir.Stmts) (b' : HlslAst.Stmts) (hg : genStmts cx b = .ok b') (hwt : Ir.wtStmts W.sig cx.vty rt b = true) :
-    ∀ fuel σ, Ast.execs W env rt fuel b' σ = Ir.execs W fuel b σ :=
-  sim_stmts hag rt b b' hg hwt
+/-- **statement lists** = `generate_scope_block`, including its label handling (the IR has `CaseLabel`/`DefaultLabel` as
+statements of their own; the exporter makes each label own the statement that follows it, leaves `case 2: ;` for a
+label followed by another label, and appends otherwise): the restructured list means the same as the flat one, in
+every mode — in particular fall-through, `break`, `default` in any position and consecutive labels are preserved. -/
+theorem gen_sem_stmts {W : World} {env : Ast.Env} {cx : Ctx} (hag : Agree cx env) (rt : Ty) (lt : Option Ty)
+    (b : Ir.Stmts) (b' : HlslAst.Stmts) (hg : genStmts cx b = .ok b') (hwt : Ir.wtStmts W.sig cx.vty rt lt b = true)
+    (m : Mode) (hm : ModeOK lt m) :
+    ∀ fuel σ, Ast.execs W env rt fuel m b' σ = Ir.execs W fuel m b σ := by
+  intro fuel σ
+  have := sim_acc hag rt b .nil b' lt hg hwt m hm fuel σ
+  rw [this]
+  cases m <;> simp [Ast.execs, endOf, bindS]
+
+/-- the label-filling step of `generate_scope_block` alone, for *any* statements (not only generated ones): pushing `s`
+onto the statements so far means "…and then `s`" -/
+theorem scope_block_push_is_append (W : World) (env : Ast.Env) (rt : Ty) (fuel : Nat) (s : HlslAst.Stmt)
+    (acc : HlslAst.Stmts) (m : Mode) (σ : Store) :
+    Ast.execs W env rt fuel m (HlslAst.pushStmt acc s) σ =
+      bindS m (Ast.execs W env rt fuel m acc σ) (fun m' σ' => Ast.execs W env rt fuel m' (.cons s .nil) σ') :=
+  execs_push W env rt fuel s acc m σ
 
 /-- **functions**: for all argument values and every initial store the emitted definition yields the same return
 value, the same final parameter values (`out`/`inout`) and the same final store (static globals). -/
 theorem gen_sem_func {W : World} {env : Ast.Env} {cx : Ctx} (hag : Agree cx env)
     (fn : Ir.Func) (afn : HlslAst.Func) (hg : genFunc cx fn = .ok afn)
-    (hwt : Ir.wtStmts W.sig cx.vty fn.ret fn.body = true) :
+    (hwt : Ir.wtStmts W.sig cx.vty fn.ret none fn.body = true) :
     ∀ fuel vals σ, Ast.callFunc W env fuel afn vals σ = Ir.callFunc W fuel fn vals σ :=
   sim_func hag hg hwt
 
@@ -123,7 +158,7 @@ functions of the typed program compute, at every call depth, every loop fuel, fo
 (One name environment for the module: emitted names unique across functions; `gen_sem_func` needs only one function's.) -/
 theorem gen_sem_program {env : Ast.Env} {cx : Ctx} (hag : Agree cx env)
     (prog : List Ir.Func) (astProg : List HlslAst.Func) (hg : genProg cx prog = .ok astProg)
-    (hwt : ∀ fn ∈ prog, Ir.wtStmts (Ir.sigOf prog) cx.vty fn.ret fn.body = true) (P : Prim) (fuel d : Nat) :
+    (hwt : ∀ fn ∈ prog, Ir.wtStmts (Ir.sigOf prog) cx.vty fn.ret none fn.body = true) (P : Prim) (fuel d : Nat) :
     Ast.phi P env astProg fuel d = Ir.phi P prog fuel d :=
   sim_phi hag hg hwt P fuel d
 
@@ -142,13 +177,14 @@ def P0 : Prim where
   f2u x := x
   f2b _ := false
   d2f _ := 0
+  intr _ _ _ := none
 
 def W0 : World := { P := P0, phi := fun _ _ _ => none, sig := fun _ => none }
 
 def cx0 : Ctx where
   locName n := String.ofList (List.replicate (n + 1) 'l')
   globName n := String.ofList ('g' :: List.replicate n 'g')
-  funcName n := String.ofList ('f' :: List.replicate n 'f')
+  funcName n := String.ofList ('Z' :: List.replicate n 'Z')
   vty
     | .loc 0 => .bool
     | .loc 1 => .int
@@ -162,7 +198,7 @@ def env0 : Ast.Env where
     | _ => none
   vty := cx0.vty
   fres s := match s.toList with
-    | 'f' :: r => some r.length
+    | 'Z' :: r => some r.length
     | _ => none
 
 theorem agree0 : Agree cx0 env0 where
@@ -170,6 +206,8 @@ theorem agree0 : Agree cx0 env0 where
     cases x <;> simp [Ctx.name, cx0, env0, List.replicate_succ]
   vty := rfl
   fres f := by simp [cx0, env0]
+  builtin i name h := by
+    cases i <;> simp [intrinsicForm] at h <;> subst h <;> rfl
 
 
 /-- `(2147483647 + t) > 0` with `t : bool`, as the type checker elaborates it: `Cast(IntLiteral, t)` -/
@@ -203,11 +241,40 @@ def fEx : Ir.Func where
           (.cons (.expr (.op .Assignment (.cons (.global 0) (.cons (.op .Add (.cons (.global 0) (.cons (.var 1) .nil))) .nil)))) .nil)))
       (.cons (.ret (some (.op .Subtract (.cons (.cast .int (.var 2)) (.cons (.lit (.int32 (-5))) .nil))))) .nil)
 
+/-- `switch (v1) { case 1: g0 = 10; break; case 2: case -3: g0 = g0 + 5; default: g0 = g0 + 7; }` (fall-through,
+consecutive labels, a negative label, `default` last) -/
+def swEx : Ir.Stmts :=
+  .cons (.switch .int (.var 1)
+    (.cons (.caseLabel (.intLit 1))
+    (.cons (.expr (.op .Assignment (.cons (.global 0) (.cons (.lit (.int32 10)) .nil))))
+    (.cons .break
+    (.cons (.caseLabel (.intLit 2))
+    (.cons (.caseLabel (.intLit (-3)))
+    (.cons (.expr (.op .Assignment (.cons (.global 0) (.cons (.op .Add (.cons (.global 0) (.cons (.lit (.int32 5)) .nil))) .nil))))
+    (.cons .defaultLabel
+    (.cons (.expr (.op .Assignment (.cons (.global 0) (.cons (.op .Add (.cons (.global 0) (.cons (.lit (.int32 7)) .nil))) .nil))))
+    .nil))))))))) .nil
+
+example : Ir.wtStmts W0.sig cx0.vty .int none swEx = true := by decide
+/-- what the exporter makes of it: `case 1:` owns its assignment; `case 2:` owns `case -3:`, which keeps the empty
+statement (`case 2: case -3: ;`), and the assignment that follows is appended as a sibling; `default:` owns its statement -/
+example : ∃ c1 c2 c3 d, genStmts cx0 swEx = .ok (.cons (.switch (.ident "ll") (.block
+    (.cons (.caseLabel (.lit (.intUntyped 1)) c1)
+    (.cons .break
+    (.cons (.caseLabel (.lit (.intUntyped 2)) (.caseLabel (.un .Minus (.lit (.intUntyped 3))) c2))
+    (.cons c3
+    (.cons (.defaultLabel d) .nil))))))) .nil) := ⟨_, _, _, _, rfl⟩
+
 /-- the hypotheses of the theorems hold for a loop with an `inout` parameter, a static global, an unsuffixed negative
 constant and a cast; the names agree (`agree0`); the exporter produces a definition for it -/
-example : Ir.wtStmts W0.sig cx0.vty fEx.ret fEx.body = true := by decide
+example : Ir.wtStmts W0.sig cx0.vty fEx.ret none fEx.body = true := by decide
 example : ∃ afn, genFunc cx0 fEx = .ok afn := ⟨_, rfl⟩
 example : Agree cx0 env0 := agree0
+/-- `max(v1, 3)` at `int`, `sqrt((float)v1)`: accepted, exported, and covered by `gen_sem_expr` -/
+example : Ir.typeOf W0.sig cx0.vty (.intr .Max .int .int (.cons (.var 1) (.cons (.lit (.int32 3)) .nil))) = some .int ∧
+    Ir.litOK (.intr .Max .int .int (.cons (.var 1) (.cons (.lit (.int32 3)) .nil))) = true ∧
+    genExpr cx0 (.intr .Max .int .int (.cons (.var 1) (.cons (.lit (.int32 3)) .nil))) =
+      .ok (.call "max" (.cons (.ident "ll") (.cons (.lit (.intUntyped 3)) .nil))) := ⟨by decide, by decide, rfl⟩
 /-- …and the instance of `gen_sem_func` it yields -/
 example (afn : HlslAst.Func) (h : genFunc cx0 fEx = .ok afn) (fuel : Nat) (vals : List Val) (σ : Store) :
     Ast.callFunc W0 env0 fuel afn vals σ = Ir.callFunc W0 fuel fEx vals σ :=
